@@ -127,6 +127,8 @@ impl Prop for P {
             let mut cuts: Vec<usize> = case.slice_cuts.iter().map(|&c| c as usize % (data.len() + 1)).collect();
             cuts.sort();
             cuts.dedup();
+            // every third cut twice: an empty slice in the middle of the sequence
+            let cuts: Vec<usize> = cuts.iter().enumerate().flat_map(|(i, &c)| if i % 3 == 0 { vec![c, c] } else { vec![c] }).collect();
             let mut slices: Vec<&[u8]> = Vec::new();
             let mut p = 0;
             for c in cuts {
